@@ -289,7 +289,9 @@ def replay_judge(result, recursive):
                 if d:
                     tree[d] = kind
     final = {p: k for p, k in result["tree"].items() if (recursive or p.count("/") == 1) and "__probe" not in p}
-    tree = {p: k for p, k in tree.items() if p.startswith("W/") and "__probe" not in p}
+    # a non-recursive watch is accountable for the root's direct children only: a moved event about a direct child may
+    # name a destination further down (FSEvents delivers both halves of such a move), which is not part of that tree
+    tree = {p: k for p, k in tree.items() if p.startswith("W/") and "__probe" not in p and (recursive or p.count("/") == 1)}
     if tree != final:
         extra = sorted(set(tree.items()) - set(final.items()))
         missing = sorted(set(final.items()) - set(tree.items()))
